@@ -117,6 +117,9 @@ def _request(c):
         return [("real", "<i2"), ("imag", "<i2")] if code == 0 else _np_dtype(code).name
     if form == "type":
         return _np_dtype(code) if code == 0 else _np_dtype(code).type
+    if form == "swapped":
+        # the complex dtype of the other byte order: served by value or refused with TypeError, nothing else
+        return _np_dtype(code) if code == 0 else _np_dtype(code).newbyteorder()
     raise AssertionError(form)
 
 
@@ -176,6 +179,8 @@ def run_impl(c):
 
     def f():
         r = got["ok"]
+        if c.get("dst_form") == "swapped" and c["dst"] in (1, 2):
+            r = r.astype(_np_dtype(c["dst"]))      # judged by value
         if r.dtype != _np_dtype(c["dst"]):
             raise AssertionError("dtype")
         if np.ascontiguousarray(x).tobytes() != np.ascontiguousarray(before).tobytes():
@@ -230,6 +235,8 @@ def to_coq(c, r):
             cv = "(CFloats [%s])" % "; ".join("(%s, %s)" % (_fpc(v[1]), _fpc(v[2])) for v in vals)
         out = "(Ok (%s, %s))" % (vf.listc(r["ok"]["shape"]), cv)
     dstc = c["dst"] if c["dst"] <= 2 else 3
+    if c.get("dst_form") == "swapped" and c["dst"] in (1, 2) and r.get("exc") == "TypeError":
+        dstc = 3
     if c.get("layout") == "swapped" and c["src"] != 0 and r.get("exc") == "TypeError":
         # an input array of non-native byte order may be refused (it is not one of the supported dtypes) or converted
         # by value; what it may not be is misread. A refusal is judged like an unsupported request.
@@ -313,7 +320,7 @@ def gen_cases(rng, tier):
         c = {"k": "conv", "src": src, "dst": dst, "shape": shape, "values": vals, "layout": rng.choice(layouts), "cls": cls,
              "scalar": shape == [] and rng.random() < 0.5}
         if rng.random() < 0.35:
-            c["dst_form"] = rng.choice(["fresh", "fresh", "spec", "type"])
+            c["dst_form"] = rng.choice(["fresh", "fresh", "spec", "type", "swapped"])
         cases.append(c)
         if len(shape) >= 2 and shape[0] >= 1 and rng.random() < 0.5:
             # the same rows as a broadcast (zero-stride) view
